@@ -18,7 +18,7 @@ ASSUMPTIONS = ['data excludes ~ * : (the converter\'s fixed output delimiters; X
                'the component separator (it is the value of ISA16) is a character XML 1.0 can represent; segment and element separators may be control characters',
                'the id of the <comp> wrapper element is not asserted (the property names elements and components)',
                'the intended map path of each segment is the generator\'s ground truth (unambiguous sub-language, DESIGN 4.1)']
-REQUIRED_COUNTERS = ['docs:component-separator-inside-a-simple-element', 'docs:with-doctype', 'docs', 'segments-compared', 'elements-compared', 'subelements-compared', 'roundtrips', 'docs:escaped-chars', 'docs:repeated-loop', 'docs:notused-filled', 'reach:x12xml_simple.seg']
+REQUIRED_COUNTERS = ['cli:invocations', 'cli:round-trips-compared', 'docs:component-separator-inside-a-simple-element', 'docs:with-doctype', 'docs', 'segments-compared', 'elements-compared', 'subelements-compared', 'roundtrips', 'docs:escaped-chars', 'docs:repeated-loop', 'docs:notused-filled', 'reach:x12xml_simple.seg']
 MIN_CASES = {'quick': 200, 'thorough': 6000}
 WATCHDOG_S = {'quick': 1200, 'thorough': 7200}
 
@@ -73,6 +73,45 @@ def xml_segments(root):
                 out.append((ch, list(stack)))
     walk(root, [])
     return out
+
+
+def cli_phase(ctx, text, charset, case):
+    """the command-line front ends (pyx12.scripts.x12xml -o, then pyx12.scripts.xmlx12 -o) must write what the library writes for the same input"""
+    import os
+    import subprocess
+    import sys
+    import pyx12.xmlx12_simple
+    res = pipeline.validate(text, charset='E', ack=False, xml=True)
+    if res.exc is not None or not res.xml:
+        return
+    d = os.path.join(ctx.scratch, 'c08-cli-%d' % ctx.shard)
+    os.makedirs(d, exist_ok=True)
+    for f in os.listdir(d):
+        os.unlink(os.path.join(d, f))
+    src, xmlf, backf = os.path.join(d, 'in.x12'), os.path.join(d, 'out.xml'), os.path.join(d, 'back.x12')
+    with open(src, 'w', encoding='ascii', newline='') as fd:
+        fd.write(text)
+    env = dict(os.environ, PYTHONWARNINGS='ignore')
+    p1 = subprocess.run([sys.executable, '-m', 'pyx12.scripts.x12xml', '-q', '-o', xmlf, src], stdout=subprocess.PIPE, stderr=subprocess.PIPE, env=env, timeout=300, cwd=d)
+    ctx.count('cli:invocations')
+    got = open(xmlf, encoding='utf-8', errors='replace', newline='').read() if os.path.exists(xmlf) else ''
+    if got != res.xml:
+        k = next((j for j, (x, y) in enumerate(zip(got + '\0', res.xml + '\0')) if x != y), None)
+        ctx.viol('cli:xml-differs', 'the XML written by the command-line front end differs from the XML the library writes for the same input', dict(case, cli=True),
+                 {'cli_len': len(got), 'library_len': len(res.xml), 'first_difference_at': k, 'cli_there': got[k:k + 120] if k is not None else None, 'stderr': p1.stderr.decode('ascii', 'replace')[-200:]})
+        return
+    out = io.StringIO()
+    try:
+        pyx12.xmlx12_simple.convert(io.StringIO(res.xml), out)
+    except Exception:
+        return
+    p2 = subprocess.run([sys.executable, '-m', 'pyx12.scripts.xmlx12', '-q', '-o', backf, xmlf], stdout=subprocess.PIPE, stderr=subprocess.PIPE, env=env, timeout=300, cwd=d)
+    ctx.count('cli:invocations')
+    back = open(backf, encoding='ascii', errors='replace', newline='').read() if os.path.exists(backf) else ''
+    ctx.count('cli:round-trips-compared')
+    if back != out.getvalue():
+        ctx.viol('cli:x12-differs', 'the X12 written by the command-line XML-to-X12 front end differs from what the library converts the same XML to', dict(case, cli=True),
+                 {'cli_len': len(back), 'library_len': len(out.getvalue()), 'cli_head': back[:200], 'stderr': p2.stderr.decode('ascii', 'replace')[-200:]})
 
 
 def judge(ctx, doc, terms, case, sigs):
@@ -271,6 +310,10 @@ def run(ctx):
             case = {'map': e['file'], 'entry': e, 'gen_seed': seed, 'params': kw, 'terms': list(terms), 'simple_dtd': [None, 'x12simple.dtd', None, 'http://example.invalid/dtd/x12simple.dtd', None][k % 5]}
             judge(ctx, doc, terms, case, sigs)
             n += 1
+            if k % 6 == 2 and not case.get('simple_dtd'):
+                t_ = doc.text(terms[0], terms[1], terms[2], '\n' if terms[0] != '\n' else '')
+                if all(ord(c) < 128 for c in t_):
+                    cli_phase(ctx, t_, doc.charset, {'map': e['file'], 'gen_seed': seed, 'terms': list(terms)})
             ctx.sample({'map': label, 'terms': list(terms), 'segments': len(doc.recs), 'text_head': doc.text(*terms)[:400]})
     ctx.case(n=n, sigs=sorted(sigs))
 
